@@ -340,9 +340,27 @@ extern "C" int misc()
 {
   MStr ma, mb; symStr(ma, VF_L + 1); symStr(mb, VF_L);
   String a((const char*)ma.v, ma.n), b((const char*)mb.v, mb.n);
-  unsigned q = vf_pick(6);
+  unsigned q = vf_pick(8);
   switch(q)
   {
+  case 6: { // the String's own C-string view as a printf argument (the only way to name the String itself there)
+    unsigned owned = vf_pick(3);
+    String s = owned == 2 ? String(300) : String();                 // 2: unshared with capacity >= 200: printf formats in place
+    if(owned == 0) s = a; else s.append(a);                         // 0: shares a's buffer
+    s.printf("%s-%s", (const char*)s, "x");
+    MStr want = ma; byte tail[2] = {'-', 'x'}; MStr mt; mt.set(tail, 2); want.append(mt);
+    checkOne(s, want); checkOne(a, ma);
+    break; }
+  case 7: { // append(ptr, len) / prepend(ptr, len) with a range of the String's own bytes
+    if(ma.n == 0) break;
+    unsigned from = vf_pick(ma.n), len = vf_pick(ma.n - from + 1);
+    unsigned owned = vf_pick(2);
+    String s; if(owned == 0) s = a; else s.append(a);
+    MStr part; part.set(ma.v + from, len);
+    if(vf_pick(2)) { s.append((const char*)s + from, len); MStr want = ma; want.append(part); checkOne(s, want); }
+    else { s.prepend((const char*)s + from, len); MStr want = part; want.append(ma); checkOne(s, want); }
+    checkOne(a, ma);
+    break; }
   case 0: { // concatenation operators build new values and leave the operands alone
     String c = a + b; MStr mc = concat(ma, mb); checkOne(c, mc); checkOne(a, ma); checkOne(b, mb);
     String d2 = a; d2 += b; checkOne(d2, mc); checkOne(a, ma);
